@@ -554,7 +554,7 @@ fn main() {
     run_index_case(&vec![], &[0.0], 3, &mut drv, use_model, &mut sum, false);
 
     // ---- index level
-    let n_index = args.extra.get("n-index").and_then(|s| s.parse().ok()).unwrap_or(if args.thorough { 20000 } else { 2500 });
+    let n_index = args.extra.get("n-index").and_then(|s| s.parse().ok()).unwrap_or(if args.thorough { 20000 } else { 1500 });
     for _ in 0..n_index {
         let dim = gen_dim(&mut rng);
         let m = match rng.below(12) { 0 => 0, 1 => 1, 2 if args.thorough => rng.usize(200, 999), _ => rng.usize(1, if args.thorough { 200 } else { 60 }) };
@@ -575,7 +575,7 @@ fn main() {
         }
     }
     // ---- file level
-    let n_file = args.extra.get("n-file").and_then(|s| s.parse().ok()).unwrap_or(if args.thorough { 300 } else { 10 });
+    let n_file = args.extra.get("n-file").and_then(|s| s.parse().ok()).unwrap_or(if args.thorough { 300 } else { 6 });
     for _ in 0..n_file {
         let c = gen_file_case(&mut rng, args.thorough);
         run_file_case(&c, &mut drv, use_model, &mut sum, false);
